@@ -12,6 +12,7 @@ from __future__ import annotations
 
 import ast
 import copy
+import os
 from dataclasses import dataclass, field
 from typing import Callable, Iterable, Optional
 
@@ -19,9 +20,9 @@ from .model import AnalysisError, Func, Program
 
 MUTATORS = {"append", "extend", "remove", "pop", "insert", "clear", "add", "update", "discard", "sort", "reverse",
             "intersection_update", "difference_update", "setdefault", "popitem"}
-MAX_STATES = 48
-GROUP_STATES = 16
-MAX_LOOP_ROUNDS = 3
+MAX_STATES = int(os.environ.get("NGOSA_MAX_STATES", "48"))
+GROUP_STATES = int(os.environ.get("NGOSA_GROUP_STATES", "16"))
+MAX_LOOP_ROUNDS = int(os.environ.get("NGOSA_LOOP_ROUNDS", "3"))
 
 _UNPARSE_CACHE: dict[int, tuple[ast.AST, str]] = {}
 
